@@ -229,7 +229,7 @@ def run_benign(props=None, ids=None, root=None, jobs=16, verbose=True):
     return out
 
 
-def run_regressions(root=None, verbose=True):
+def run_regressions(root=None, verbose=True, props=None):
     """Every repaired defect returns when its fix is reverted (regressions/<fix>.reverse.diff): the check of each
     property recorded for that commit in known_findings.json must report it again."""
     import json
@@ -243,12 +243,15 @@ def run_regressions(root=None, verbose=True):
         if not fn.endswith('.reverse.diff'):
             continue
         commit = fn.split('-', 1)[1].split('.')[0]
-        props = sorted({k['property'] for k in fixed if k.get('commit', '').startswith(commit[:7])})
+        props_ = sorted({k['property'] for k in fixed if k.get('commit', '').startswith(commit[:7])})
+        props_here = [p for p in props_ if props is None or p in props]
+        if props is not None and not props_here:
+            continue
         ov = apply_unified_diff(root, open(os.path.join(rd, fn)).read())
-        if ov is None or not props:
+        if ov is None or not props_:
             out['not_applicable'].append(fn)
             continue
-        for p in props:
+        for p in props_here:
             out['total'] += 1
             code, R = run_check(p, False, root=root, overlay=ov, quiet=True, write=False)
             if code == 1:
